@@ -287,6 +287,28 @@ theorem proc_warming_generates_all (gen : C03.Gen) (v : C03.Srv) (r : Req) (prev
   subst ho
   split <;> simp [C03.narrowedSotw]
 
+/-- **Proxyless gRPC clients are never narrowed**: whatever the request, if it is answered the generator is asked
+    for the whole requested set. -/
+theorem proc_grpc_generates_all (gen : C03.Gen) (v : C03.Srv) (r : Req) (o : POut)
+    (ho : procSotwGrpc gen v r = some o) : o.calls = [] ∨ o.calls = [(r.ty, r.names)] := by
+  unfold procSotwGrpc at ho
+  cases hs : shouldRespond v.st r with
+  | crash => simp [hs] at ho
+  | out b sub s' =>
+    cases b
+    · simp only [hs, Option.some.injEq] at ho
+      subst ho; exact Or.inl rfl
+    · obtain ⟨w, hw, _, hnames⟩ := responded_state_clean v.st r sub s' hs
+      simp only [hs, Option.some.injEq] at ho
+      subst ho
+      right
+      simp [askedSotw, hw, C03.narrowedSotw, hnames]
+
+/-- ... and the decision to answer, the state and the silent classes are those of every other client. -/
+theorem proc_grpc_same_decision (gen : C03.Gen) (v : C03.Srv) (r : Req) (sub : List String) (s' : State)
+    (h : shouldRespond v.st r = .out false sub s') : procSotwGrpc gen v r = procSotw gen v r := by
+  simp [procSotwGrpc, procSotw, h]
+
 /-- Shape of every outcome: at most one response, of the request's type; at most one generator call. -/
 theorem proc_sent_shape (gen : C03.Gen) (v : C03.Srv) (r : Req) (o : POut)
     (ho : procSotw gen v r = some o) :
